@@ -10,9 +10,91 @@ var Paths = []string{"a", "b", "c", "a.b", "a.c", "b.a", "a.0", "a.1", "a.b.c", 
 
 var TypeSpecs = []interface{}{"double", "string", "object", "array", "binData", "objectId", "bool", "date", "null", "regex", "int", "timestamp", "long", "decimal", "number", int32(1), int32(2), int32(16), int64(18), float64(10), int32(4), int32(3)}
 
+// Hint biases filters / updates / projections towards a concrete document:
+// paths that exist in it and values that occur in it.
+type Hint struct {
+	Paths  []string
+	Values []interface{}
+}
+
+// HintOf extracts the paths (incl. positional ones) and values of documents.
+func HintOf(docs ...bson.D) Hint {
+	var h Hint
+	seen := map[string]bool{}
+	var walk func(prefix string, v interface{}, depth int)
+	walk = func(prefix string, v interface{}, depth int) {
+		if prefix != "" && !seen[prefix] {
+			seen[prefix] = true
+			h.Paths = append(h.Paths, prefix)
+		}
+		if prefix != "" && len(h.Values) < 24 {
+			h.Values = append(h.Values, v)
+		}
+		if depth > 3 {
+			return
+		}
+		switch x := v.(type) {
+		case bson.D:
+			for _, e := range x {
+				if e.Key == "" {
+					continue
+				}
+				p := e.Key
+				if prefix != "" {
+					p = prefix + "." + e.Key
+				}
+				walk(p, e.Value, depth+1)
+			}
+		case bson.A:
+			for i, e := range x {
+				if i < 2 {
+					walk(prefix+"."+string(rune('0'+i)), e, depth+1)
+				}
+				// implicit traversal paths
+				if d, ok := e.(bson.D); ok {
+					for _, f := range d {
+						if f.Key != "" {
+							walk(prefix+"."+f.Key, f.Value, depth+2)
+						}
+					}
+				}
+			}
+		}
+	}
+	for _, d := range docs {
+		walk("", d, 0)
+	}
+	return h
+}
+
+var curHint *Hint
+
+// WithHint runs f with the hint installed (generators are single-threaded per
+// rapid case).
+func WithHint(h Hint, f func()) {
+	old := curHint
+	curHint = &h
+	defer func() { curHint = old }()
+	f()
+}
+
+func (c Cfg) PathFrom(t *rapid.T, paths []string) string {
+	if curHint != nil && len(curHint.Paths) > 0 && rapid.IntRange(0, 9).Draw(t, "hp") < 6 {
+		return rapid.SampledFrom(curHint.Paths).Draw(t, "hpath")
+	}
+	return rapid.SampledFrom(paths).Draw(t, "path")
+}
+
 func (c Cfg) Operand() *rapid.Generator[interface{}] {
 	return rapid.Custom(func(t *rapid.T) interface{} {
 		k := rapid.IntRange(0, 9).Draw(t, "ok")
+		if curHint != nil && len(curHint.Values) > 0 && k < 4 {
+			v := rapid.SampledFrom(curHint.Values).Draw(t, "hv")
+			if rapid.Bool().Draw(t, "hmut") {
+				return c.Mutate(v, t)
+			}
+			return v
+		}
 		if k < 7 {
 			return c.Scalar().Draw(t, "s")
 		}
@@ -79,7 +161,7 @@ func (c Cfg) FieldPreds(depth int, paths []string) *rapid.Generator[bson.D] {
 		n := rapid.IntRange(1, 2).Draw(t, "np")
 		d := bson.D{}
 		for i := 0; i < n; i++ {
-			p := rapid.SampledFrom(paths).Draw(t, "path")
+			p := c.PathFrom(t, paths)
 			if rapid.IntRange(0, 3).Draw(t, "lit") == 0 {
 				d = append(d, bson.E{Key: p, Value: c.Operand().Draw(t, "lit")})
 				continue
